@@ -1,96 +1,116 @@
-/- Helper lemmas for the receive-side model (C12): deliveries are exactly the accepted `Update`s of one
-sequential history on the tunnel's window. -/
+/- Helper lemmas for the receive-side model (C12): on every tunnel, the layers acted upon are exactly
+the accepted `Update`s of one sequential history on that tunnel's window. -/
 import Nebula.Model.Decrypt
 
 namespace Nebula.Lemmas.Decrypt
 open Nebula.Bits Nebula.Decrypt
 
-structure Inv (pk : Nat → Pkt) (b0 : Bits) (s : State) : Prop where
-  /-- window and delivered counters are those of the sequential `Update` history -/
-  hist : (s.window, s.delivered.map (·.2)) = feed b0 s.hist
-  /-- a delivered packet was authentic, carries the delivered counter, and its thread is finished -/
-  auth : ∀ t c, (t, c) ∈ s.delivered → (pk t).authOK = true ∧ (pk t).ctr = c ∧ s.pc t = .done
-  /-- no thread delivers twice -/
-  once : (s.delivered.map (·.1)).Nodup
-  /-- a thread past the AEAD step holds an authentic packet -/
-  opened : ∀ t, s.pc t = .opened → (pk t).authOK = true
+structure Inv (pk : Nat → Pkt) (b0 : Nat → Bits) (s : State) : Prop where
+  /-- per tunnel: window and acted-upon counters are those of the sequential `Update` history -/
+  hist : ∀ T, (s.win T, onTunnel T s.delivered) = feed (b0 T) (s.hist T)
+  /-- a layer acted upon is an authentic layer of that thread's packet, below the thread's current layer -/
+  auth : ∀ t T c, (t, T, c) ∈ s.delivered →
+    ∃ li, li < (s.pc t).1 ∧ (pk t)[li]? = some { tunnel := T, ctr := c, authOK := true }
+  /-- a thread past the AEAD step of a layer holds an authentic layer -/
+  opened : ∀ t, (s.pc t).2 = .opened → ∃ ly, (pk t)[(s.pc t).1]? = some ly ∧ ly.authOK = true
 
-theorem inv_init (pk : Nat → Pkt) (b0 : Bits) : Inv pk b0 (init b0) :=
-  ⟨by simp [init, feed], by simp [init], by simp [init], by simp [init]⟩
+theorem inv_init (pk : Nat → Pkt) (b0 : Nat → Bits) : Inv pk b0 (init b0) :=
+  ⟨by intro T; simp [init, feed, onTunnel], by simp [init], by simp [init]⟩
 
-theorem setPC_self (s : State) (t : Nat) (p : PC) : setPC s t p t = p := by simp [setPC]
-theorem setPC_other (s : State) (t t' : Nat) (p : PC) (h : t' ≠ t) : setPC s t p t' = s.pc t' := by
+theorem setPC_self (s : State) (t : Nat) (p : Nat × PC) : setPC s t p t = p := by simp [setPC]
+theorem setPC_other (s : State) (t t' : Nat) (p : Nat × PC) (h : t' ≠ t) : setPC s t p t' = s.pc t' := by
   simp [setPC, h]
 
-theorem step_inv {pk : Nat → Pkt} {b0 : Bits} {s : State} (hi : Inv pk b0 s) (t : Nat) :
-    Inv pk b0 (step pk s t).1 := by
-  obtain ⟨hh, ha, ho, hop⟩ := hi
-  -- changing the pc of a thread that is not finished keeps the facts about delivered packets
-  have keep : ∀ p, s.pc t ≠ .done → ∀ t' c, (t', c) ∈ s.delivered →
-      (pk t').authOK = true ∧ (pk t').ctr = c ∧ setPC s t p t' = .done := by
-    intro p hne t' c hm
-    obtain ⟨a, b, d⟩ := ha t' c hm
-    refine ⟨a, b, ?_⟩
-    by_cases e : t' = t
-    · subst e; exact absurd d hne
-    · rw [setPC_other _ _ _ _ e]; exact d
-  have keepOpened : ∀ p, p ≠ .opened → ∀ t', setPC s t p t' = .opened → (pk t').authOK = true := by
-    intro p hp t' h
-    by_cases e : t' = t
-    · subst e; rw [setPC_self] at h; exact absurd h hp
-    · rw [setPC_other _ _ _ _ e] at h; exact hop t' h
-  unfold step
-  cases hpc : s.pc t with
-  | start =>
-    simp only
-    split
-    · exact ⟨hh, keep _ (by simp [hpc]), ho, keepOpened _ (by decide)⟩
-    · exact ⟨hh, keep _ (by simp [hpc]), ho, keepOpened _ (by decide)⟩
-  | checked =>
-    simp only
-    split
-    · rename_i hauth
-      refine ⟨hh, keep _ (by simp [hpc]), ho, ?_⟩
-      intro t' h
-      simp only at h
-      by_cases e : t' = t
-      · subst e; exact hauth
-      · rw [setPC_other _ _ _ _ e] at h; exact hop t' h
-    · exact ⟨hh, keep _ (by simp [hpc]), ho, keepOpened _ (by decide)⟩
-  | opened =>
-    simp only
-    have hauth := hop t hpc
-    have hfeed : feed b0 ((pk t).ctr :: s.hist) =
-        ((update s.window (pk t).ctr).1,
-          if (update s.window (pk t).ctr).2 then (pk t).ctr :: s.delivered.map (·.2) else s.delivered.map (·.2)) := by
-      simp only [feed]
-      rw [← hh]
-    split
-    · rename_i hacc
-      refine ⟨?_, ?_, ?_, keepOpened _ (by decide)⟩
-      · simp only [List.map_cons]
-        rw [hfeed, if_pos hacc]
-      · intro t' c hm
-        simp only [List.mem_cons, Prod.mk.injEq] at hm
-        rcases hm with ⟨rfl, rfl⟩ | hm
-        · exact ⟨hauth, rfl, setPC_self _ _ _⟩
-        · exact keep _ (by simp [hpc]) t' c hm
-      · simp only [List.map_cons]
-        refine List.nodup_cons.mpr ⟨?_, ho⟩
-        intro hm
-        obtain ⟨⟨t', c⟩, hm', e⟩ := List.mem_map.mp hm
-        simp only at e
-        subst e
-        have := (ha _ _ hm').2.2
-        rw [hpc] at this
-        cases this
-    · rename_i hacc
-      refine ⟨?_, keep _ (by simp [hpc]), ho, keepOpened _ (by decide)⟩
-      simp only
-      rw [hfeed, if_neg hacc]
-  | done => exact ⟨hh, ha, ho, hop⟩
+theorem onTunnel_cons_same (t T : Nat) (c : U64) (l : List (Nat × Nat × U64)) :
+    onTunnel T ((t, T, c) :: l) = c :: onTunnel T l := by simp [onTunnel]
 
-theorem run_inv {pk : Nat → Pkt} {b0 : Bits} (sched : List Nat) :
+theorem onTunnel_cons_other (t T T' : Nat) (c : U64) (l : List (Nat × Nat × U64)) (h : T' ≠ T) :
+    onTunnel T ((t, T', c) :: l) = onTunnel T l := by simp [onTunnel, h]
+
+theorem step_inv {pk : Nat → Pkt} {b0 : Nat → Bits} {s : State} (hi : Inv pk b0 s) (t : Nat) :
+    Inv pk b0 (step pk s t).1 := by
+  obtain ⟨hh, ha, hop⟩ := hi
+  unfold step
+  cases hly : (pk t)[(s.pc t).1]? with
+  | none => exact ⟨hh, ha, hop⟩
+  | some ly =>
+    have hlt : (s.pc t).1 < (pk t).length := by
+      rcases List.getElem?_eq_some_iff.mp hly with ⟨h, _⟩; exact h
+    -- moving thread `t` to layer index `n' ≥` its current one keeps the facts about acted-upon layers
+    have keep : ∀ (p : Nat × PC), (s.pc t).1 ≤ p.1 → ∀ t' T c, (t', T, c) ∈ s.delivered →
+        ∃ li, li < (setPC s t p t').1 ∧ (pk t')[li]? = some { tunnel := T, ctr := c, authOK := true } := by
+      intro p hp t' T c hm
+      obtain ⟨li, h1, h2⟩ := ha t' T c hm
+      refine ⟨li, ?_, h2⟩
+      by_cases e : t' = t
+      · subst e; rw [setPC_self]; omega
+      · rw [setPC_other _ _ _ _ e]; exact h1
+    have keepOpened : ∀ (p : Nat × PC), p.2 ≠ .opened → ∀ t', (setPC s t p t').2 = .opened →
+        ∃ ly, (pk t')[(setPC s t p t').1]? = some ly ∧ ly.authOK = true := by
+      intro p hp t' h
+      by_cases e : t' = t
+      · subst e; rw [setPC_self] at h; exact absurd h hp
+      · rw [setPC_other _ _ _ _ e] at h ⊢; exact hop t' h
+    simp only
+    cases hpc : (s.pc t).2 with
+    | start =>
+      simp only
+      split
+      · exact ⟨hh, keep _ (Nat.le_refl _), keepOpened _ (by simp)⟩
+      · exact ⟨hh, keep _ (Nat.le_of_lt hlt), keepOpened _ (by simp)⟩
+    | checked =>
+      simp only
+      split
+      · rename_i hauth
+        refine ⟨hh, keep _ (Nat.le_refl _), ?_⟩
+        intro t' h
+        simp only at h ⊢
+        by_cases e : t' = t
+        · subst e; rw [setPC_self]; exact ⟨ly, hly, hauth⟩
+        · rw [setPC_other _ _ _ _ e] at h ⊢; exact hop t' h
+      · exact ⟨hh, keep _ (Nat.le_of_lt hlt), keepOpened _ (by simp)⟩
+    | opened =>
+      simp only
+      obtain ⟨ly', hly', hauth⟩ := hop t hpc
+      have : ly' = ly := by rw [hly] at hly'; exact (Option.some.inj hly').symm
+      subst this
+      have hfeed : feed (b0 ly'.tunnel) (ly'.ctr :: s.hist ly'.tunnel) =
+          ((update (s.win ly'.tunnel) ly'.ctr).1,
+            if (update (s.win ly'.tunnel) ly'.ctr).2 then ly'.ctr :: onTunnel ly'.tunnel s.delivered
+            else onTunnel ly'.tunnel s.delivered) := by
+        simp only [feed]
+        rw [← hh ly'.tunnel]
+      split
+      · rename_i hacc
+        refine ⟨?_, ?_, keepOpened _ (by simp)⟩
+        · intro T
+          simp only
+          by_cases e : T = ly'.tunnel
+          · subst e
+            simp only [if_true]
+            rw [onTunnel_cons_same, hfeed, if_pos hacc]
+          · simp only [e, if_false]
+            rw [onTunnel_cons_other _ _ _ _ _ (fun h => e h.symm)]
+            exact hh T
+        · intro t' T c hm
+          simp only [List.mem_cons, Prod.mk.injEq] at hm
+          rcases hm with ⟨rfl, rfl, rfl⟩ | hm
+          · refine ⟨(s.pc t').1, ?_, ?_⟩
+            · simp only; rw [setPC_self]; omega
+            · rw [hly]; cases ly'; simp_all
+          · exact keep _ (Nat.le_succ _) t' T c hm
+      · rename_i hacc
+        refine ⟨?_, keep _ (Nat.le_of_lt hlt), keepOpened _ (by simp)⟩
+        intro T
+        simp only
+        by_cases e : T = ly'.tunnel
+        · subst e
+          simp only [if_true]
+          rw [hfeed, if_neg hacc]
+        · simp only [e, if_false]
+          exact hh T
+
+theorem run_inv {pk : Nat → Pkt} {b0 : Nat → Bits} (sched : List Nat) :
     ∀ s, Inv pk b0 s → Inv pk b0 (run pk s sched) := by
   induction sched with
   | nil => intro s h; exact h
@@ -111,14 +131,117 @@ theorem delivered_suffix (pk : Nat → Pkt) (sched : List Nat) :
     simp only [run] at h
     have : ∃ n1, (step pk s t).1.delivered = n1 ++ s.delivered := by
       unfold step
-      cases s.pc t <;> simp only
-      · split <;> exact ⟨[], rfl⟩
-      · split <;> exact ⟨[], rfl⟩
-      · split
-        · exact ⟨[(t, (pk t).ctr)], rfl⟩
-        · exact ⟨[], rfl⟩
-      · exact ⟨[], rfl⟩
+      cases (pk t)[(s.pc t).1]? with
+      | none => exact ⟨[], rfl⟩
+      | some ly =>
+        simp only
+        cases (s.pc t).2 <;> simp only
+        · split <;> exact ⟨[], rfl⟩
+        · split <;> exact ⟨[], rfl⟩
+        · split
+          · exact ⟨[(t, ly.tunnel, ly.ctr)], rfl⟩
+          · exact ⟨[], rfl⟩
     obtain ⟨n1, h1⟩ := this
     exact ⟨new ++ n1, by rw [h, h1, List.append_assoc]⟩
+
+/-- nesting discipline: a thread works on layer `li` only after all outer layers were acted upon, and an
+acted-upon layer has all its outer layers acted upon by the same thread -/
+structure Chain (pk : Nat → Pkt) (s : State) : Prop where
+  below : ∀ t, (s.pc t).1 < (pk t).length → ∀ li', li' < (s.pc t).1 →
+    ∃ ly' : Layer, (pk t)[li']? = some ly' ∧ (t, ly'.tunnel, ly'.ctr) ∈ s.delivered
+  chain : ∀ t T c, (t, T, c) ∈ s.delivered → ∃ (li : Nat) (ly : Layer), (pk t)[li]? = some ly ∧ ly.tunnel = T ∧ ly.ctr = c ∧
+    ∀ li', li' < li → ∃ ly' : Layer, (pk t)[li']? = some ly' ∧ (t, ly'.tunnel, ly'.ctr) ∈ s.delivered
+
+theorem chain_init (pk : Nat → Pkt) (b0 : Nat → Bits) : Chain pk (init b0) :=
+  ⟨by intro t _ li' h; simp [init] at h, by simp [init]⟩
+
+theorem step_chain {pk : Nat → Pkt} {s : State} (hc : Chain pk s) (t : Nat) : Chain pk (step pk s t).1 := by
+  obtain ⟨hb, hch⟩ := hc
+  unfold step
+  cases hly : (pk t)[(s.pc t).1]? with
+  | none => exact ⟨hb, hch⟩
+  | some ly =>
+    have hlt : (s.pc t).1 < (pk t).length := by
+      rcases List.getElem?_eq_some_iff.mp hly with ⟨h, _⟩; exact h
+    -- the thread stays on its layer, or drops the packet: nothing is acted upon
+    have same : ∀ (p : Nat × PC), (p.1 = (s.pc t).1 ∨ p.1 = (pk t).length) →
+        Chain pk { s with pc := setPC s t p } := by
+      intro p hp
+      refine ⟨?_, hch⟩
+      intro t' hlen li' hli
+      simp only at hlen hli ⊢
+      by_cases e : t' = t
+      · subst e
+        rw [setPC_self] at hlen hli
+        rcases hp with hp | hp
+        · rw [hp] at hli; exact hb t' hlt li' hli
+        · omega
+      · rw [setPC_other _ _ _ _ e] at hlen hli; exact hb t' hlen li' hli
+    simp only
+    cases hpc : (s.pc t).2 with
+    | start => simp only; split <;> exact same _ (by simp)
+    | checked => simp only; split <;> exact same _ (by simp)
+    | opened =>
+      simp only
+      split
+      · refine ⟨?_, ?_⟩
+        · intro t' hlen li' hli
+          simp only at hlen hli ⊢
+          by_cases e : t' = t
+          · subst e
+            rw [setPC_self] at hlen hli
+            by_cases e2 : li' = (s.pc t').1
+            · subst e2; exact ⟨ly, hly, List.mem_cons_self⟩
+            · obtain ⟨ly', h1, h2⟩ := hb t' hlt li' (by simp only at hli; omega)
+              exact ⟨ly', h1, List.mem_cons_of_mem _ h2⟩
+          · rw [setPC_other _ _ _ _ e] at hlen hli
+            obtain ⟨ly', h1, h2⟩ := hb t' hlen li' hli
+            exact ⟨ly', h1, List.mem_cons_of_mem _ h2⟩
+        · intro t' T c hm
+          simp only [List.mem_cons, Prod.mk.injEq] at hm
+          rcases hm with ⟨rfl, rfl, rfl⟩ | hm
+          · refine ⟨(s.pc t').1, ly, hly, rfl, rfl, ?_⟩
+            intro li' hli
+            obtain ⟨ly', h1, h2⟩ := hb t' hlt li' hli
+            exact ⟨ly', h1, List.mem_cons_of_mem _ h2⟩
+          · obtain ⟨li, ly0, h1, h2, h3, h4⟩ := hch t' T c hm
+            refine ⟨li, ly0, h1, h2, h3, ?_⟩
+            intro li' hli
+            obtain ⟨ly', h5, h6⟩ := h4 li' hli
+            exact ⟨ly', h5, List.mem_cons_of_mem _ h6⟩
+      · have := same ((pk t).length, PC.start) (by simp)
+        exact ⟨this.below, this.chain⟩
+
+theorem run_chain {pk : Nat → Pkt} (sched : List Nat) : ∀ s, Chain pk s → Chain pk (run pk s sched) := by
+  induction sched with
+  | nil => intro s h; exact h
+  | cons t rest ih =>
+    intro s h
+    simp only [run, List.foldl_cons]
+    exact ih _ (step_chain h t)
+
+/-- (tunnel, counter) pairs are distinct as soon as, on every tunnel, the counters are -/
+theorem nodup_pairs (l : List (Nat × Nat × U64)) (h : ∀ T, (onTunnel T l).Nodup) :
+    (l.map (fun e => (e.2.1, e.2.2))).Nodup := by
+  induction l with
+  | nil => simp
+  | cons e l ih =>
+    obtain ⟨t, T, c⟩ := e
+    simp only [List.map_cons]
+    refine List.nodup_cons.mpr ⟨?_, ih ?_⟩
+    · intro hm
+      obtain ⟨⟨t', T', c'⟩, hm', e⟩ := List.mem_map.mp hm
+      simp only [Prod.mk.injEq] at e
+      obtain ⟨rfl, rfl⟩ := e
+      have hT := h T'
+      rw [onTunnel_cons_same] at hT
+      apply (List.nodup_cons.mp hT).1
+      simp only [onTunnel, List.mem_filterMap]
+      exact ⟨(t', T', c'), hm', by simp⟩
+    · intro T'
+      have hT := h T'
+      by_cases e : T = T'
+      · subst e; rw [onTunnel_cons_same] at hT; exact (List.nodup_cons.mp hT).2
+      · rw [onTunnel_cons_other _ _ _ _ _ e] at hT; exact hT
 
 end Nebula.Lemmas.Decrypt
